@@ -124,6 +124,7 @@ def run_shard(shard, tier, seed):
         for cid in shard["cids"]:
             cid = tuple(tuple(x) for x in cid)
             run_grammar(acc, fam, cid, shard["level"])
+    finalize(acc)  # per-shard minimisation too: a capped run skips the merged finalize
     return acc
 
 
